@@ -1,2 +1,74 @@
-From Astisub Require Import Kit.Base Model.Ops.
-Theorem C13_placeholder : True. Proof. exact I. Qed.
+(* C13 — Optimize drops only unreachable definitions; RemoveStyling drops only styling. *)
+From Coq Require Import List ZArith NArith.
+From Astisub Require Import Kit.Base Model.Ops Proofs.OptimizeProofs.
+Import ListNotations.
+
+(* a list with at least one cue: a style definition survives iff its identifier is reachable from a
+   cue - directly, through a run, through a used region, or through style inheritance *)
+Theorem C13_styles_exact : forall s kv, items s <> [] ->
+  In kv (map_or_empty (styles (optimize s))) <-> In kv (map_or_empty (styles s)) /\ reach_style s (s_id (snd kv)).
+Proof. exact optimize_styles_exact. Qed.
+(* ... a region definition survives iff some cue refers to it *)
+Theorem C13_regions_exact : forall s kv, items s <> [] ->
+  In kv (map_or_empty (regions (optimize s))) <-> In kv (map_or_empty (regions s)) /\ reach_region s (g_id (snd kv)).
+Proof. exact optimize_regions_exact. Qed.
+(* the marking computes exactly the inductive reachability relation *)
+Theorem C13_marking_is_reachability : forall ss roots id, In id (mark_all ss roots) <-> reach ss roots id.
+Proof. exact mark_all_reach. Qed.
+(* every reference left in the list still resolves *)
+Theorem C13_closed : forall s, wf_refs s -> wf_refs (optimize s).
+Proof. exact optimize_closed. Qed.
+(* cues are untouched; an empty list is left alone; twice = once *)
+Theorem C13_cues_untouched : forall s, items (optimize s) = items s.
+Proof. exact optimize_items. Qed.
+Theorem C13_empty : forall s, items s = [] -> optimize s = s.
+Proof. exact optimize_empty. Qed.
+Theorem C13_idempotent : forall s, optimize (optimize s) = optimize s.
+Proof. exact optimize_idempotent. Qed.
+(* RemoveStyling: no region, style or inline attribute anywhere; timing, identity, order, text and
+   voice names untouched *)
+Theorem C13_remove_styling : forall s,
+  regions (remove_styling s) = Some [] /\ styles (remove_styling s) = Some [] /\
+  Forall item_plain (items (remove_styling s)) /\
+  map (fun x => (uid x, st x, en x)) (items (remove_styling s)) = map (fun x => (uid x, st x, en x)) (items s) /\
+  map (fun x => map (fun l => (map r_text (l_runs l), l_voice l)) (i_lines x)) (items (remove_styling s)) =
+  map (fun x => map (fun l => (map r_text (l_runs l), l_voice l)) (i_lines x)) (items s).
+Proof. exact remove_styling_spec. Qed.
+
+(* non-vacuity: cue -> style 3 -> parent 1; region 0 (used) -> style 2 -> parent 0; styles 4, 5 unused,
+   5's parent is 4; a cyclic pair 6 <-> 7 that nothing refers to *)
+Definition ex_s : subs :=
+  mkSubs [mkItem 1 0 5 [mkLine [mkRun [65] (Some 3) false] []] (Some 0) None false]%N%Z
+         (Some [(0, mkRegion 0 (Some 2) false); (1, mkRegion 1 (Some 4) false)])%N
+         (Some [(0, mkStyle 0 None false); (1, mkStyle 1 None false); (2, mkStyle 2 (Some 0) false);
+                (3, mkStyle 3 (Some 1) false); (4, mkStyle 4 None false); (5, mkStyle 5 (Some 4) false);
+                (6, mkStyle 6 (Some 7) false); (7, mkStyle 7 (Some 6) false)])%N.
+Example C13_example :
+  map fst (map_or_empty (styles (optimize ex_s))) = [0; 1; 2; 3]%N /\
+  map fst (map_or_empty (regions (optimize ex_s))) = [0]%N.
+Proof. split; reflexivity. Qed.
+Lemma ex_def k p : In (k, mkStyle k p false) (map_or_empty (styles ex_s)) -> defined_style ex_s k.
+Proof. intros H. exists (k, mkStyle k p false). split; [exact H | reflexivity]. Qed.
+Example C13_example_wf : wf_refs ex_s.
+Proof.
+  unfold wf_refs. repeat split.
+  - intros x id [<-|[]] [<-|[]]. apply (ex_def 3 (Some 1))%N. cbn. auto 12.
+  - intros x id [<-|[]] H. inversion H; subst. exists (0, mkRegion 0 (Some 2) false)%N. split; [left; reflexivity | reflexivity].
+  - intros kv id [<-|[<-|[]]] H; inversion H; subst; [apply (ex_def 2 (Some 0))%N | apply (ex_def 4 None)%N]; cbn; auto 12.
+  - intros kv id H. cbn in H.
+    repeat (destruct H as [<-|H]; [cbn; intros E; inversion E; subst;
+      first [apply (ex_def 0 None)%N; cbn; solve [auto 12] | apply (ex_def 1 None)%N; cbn; solve [auto 12]
+            | apply (ex_def 4 None)%N; cbn; solve [auto 12] | apply (ex_def 7 (Some 6))%N; cbn; solve [auto 12]
+            | apply (ex_def 6 (Some 7))%N; cbn; solve [auto 12]]|]).
+    destruct H.
+  - cbn. repeat constructor; cbn; intuition discriminate.
+Qed.
+
+Print Assumptions C13_styles_exact.
+Print Assumptions C13_regions_exact.
+Print Assumptions C13_marking_is_reachability.
+Print Assumptions C13_closed.
+Print Assumptions C13_cues_untouched.
+Print Assumptions C13_empty.
+Print Assumptions C13_idempotent.
+Print Assumptions C13_remove_styling.
